@@ -13,7 +13,8 @@ CLAIM = dict(
           "or the pairing is rejected at compile time; utils::apply_isequal / apply_isclose (the entry of the testing macros) agree "
           "with them, two empty optionals included; floating elements are finite values, infinities or NaN and closeness is the "
           "IEEE |a-b| < eps: a pair with a NaN or infinite member is never close (documented default, NaN/inf handling macros "
-          "off), symmetric always, reflexive on finite elements; integer elements of different width compare by value (a comparison in a "
+          "off), symmetric always, reflexive on finite elements; the answer is a function of (shape, values, eps) only — an operand "
+          "compared with ITSELF (same object) is close exactly when eps > 0 and all its elements are finite; integer elements of different width compare by value (a comparison in a "
           "type where both values are representable is exact — proved; the code uses the wider type); the elements compared are the LOGICAL ones (by multi-index through apply_at): "
           "for two array objects (layout, shape, buffer) the answer depends only on the shapes and the logical element lists, "
           "whatever the two memory layouts (row-/column-major); both are reflexive, symmetric, return false on different length / "
@@ -34,7 +35,9 @@ RULE = ("all ordered pairs of shapes dim 1..3 extents 1..3 (39x39) with iota dat
         "position perturbed at every position, and the partner whose column-major buffer equals the other one's row-major buffer); "
         "maybe / either / tuple forms with random mixed layouts; isclose with NaN, +-inf, -0.0, a denormal, +-DBL_MAX, +-FLT_MAX at every "
         "position of every shape of dim <= 2 (and sampled dim 3) in either operand or both, double and float arrays, all scalar pairs, "
-        "and through maybe / either / tuple / apply forms; index arrays (vector<int>, vector<size_t>, std::array, tuple, ct tuple) in every ordered kind pairing with "
+        "and through maybe / either / tuple / apply forms; ALIASING: the same object as both operands for every operand kind (and the same "
+        "call on a copy), finite and non-finite contents at every position, eps in {0, negative, 0.25, 0.5, 100}, isequal / isclose / apply_*; "
+        "index arrays (vector<int>, vector<size_t>, std::array, tuple, ct tuple) in every ordered kind pairing with "
         "equal / prefix / longer / perturbed contents through utils::isequal and utils::detail::isequal; index array vs 1-d/2-d "
         "ndarray; maybe x maybe, maybe x plain; either x either, either x plain, either x scalar; tuples of arrays, of "
         "maybe+scalar, maybe of tuple; both argument orders. non-trivial = some array operand of dim >= 2; distinct = distinct lines")
@@ -43,7 +46,7 @@ THEOREM_STATUS = {
                "C18_isequal_symmetric", "C18_isequal_different_shape_is_false", "C18_isequal_different_length_is_false",
                "C18_isequal_maybe_either_tuple", "C18_isclose_is_structural_closeness", "C18_isclose_never_aborts_or_reads_outside",
                "C18_isclose_reflexive_symmetric", "C18_isclose_different_shape_is_false", "C18_isclose_same_shape",
-               "C18_reference_symmetric", "C18_layout_independent", "C18_isclose_nonfinite_elements",
+               "C18_reference_symmetric", "C18_layout_independent", "C18_isclose_nonfinite_elements", "C18_isclose_self_comparison",
                "C18_integer_comparison_exact_when_representable",
                "C18_apply_maybe_arm"],
     "partial": [],
@@ -229,6 +232,38 @@ def gen_cases(rng, tier):
             fl("nonfinite", "en", ["I:%d" % sp, "I:%d" % q], 3); fl("nonfinite", "ne", ["I:%d" % q, "I:%d" % sp], 3)
             fl("nonfinite", "ee", ["I:%d" % sp, "I:%d" % q], 3)
             add("nonfinite", "acl_mm %s %s I:1" % (A((1,), [sp]), A((1,), [q])))
+    # ---- ALIASING: the same object as both operands (by reference).  The result is a function of (shape, values, eps) only, so
+    # an aliased call must agree with the call on a copy: every operand kind, finite and non-finite contents at every position,
+    # eps in {0, negative, default-like, large}; isequal, isclose and the apply_* entries
+    self_kinds = ["dyn", "ref", "col", "cref", "rsh", "vec1", "dynf"]
+    for n, a in enumerate(shapes):
+        base = [4 * (i + 1) for i in range(prod(a))]
+        ks = self_kinds + (["fix"] if a in FIX else [])
+        for k in ks:
+            if k != "dynf": add("aliasing", "eq_sf S:%s %s" % (k, A(a, base)))
+            for e in (0, -2, 1, 2, 400):
+                add("aliasing", "cl_sf S:%s %s I:%d" % (k, A(a, base), e))
+                if k in ("dyn", "col", "dynf"): add("aliasing", "cl_aa S:%s S:%s %s %s I:%d" % (k, k, A(a, base), A(a, base), e))   # the copy
+        add("aliasing", "aeq_sf S:%s %s" % (ks[n % len(ks)] if ks[n % len(ks)] not in ("dynf", "fix") else "dyn", A(a, base)))
+        add("aliasing", "acl_sf S:%s %s I:1" % (rng.choice(["dyn", "ref", "col"]), A(a, base)))
+        if len(a) > 2 and n % 3: continue
+        for pos in range(len(base)):
+            for sp in specials:
+                x = list(base); x[pos] = sp
+                k = rng.choice([q for q in ks if not (q == "dynf" and sp in (MAX, NMAX)) and q != "fix"])
+                for e in (2, 400, 0):
+                    add("aliasing", "cl_sf S:%s %s I:%d" % (k, A(a, x), e))
+                k2 = k if k in ("dyn", "col", "dynf") else "dyn"
+                add("aliasing", "cl_aa S:%s S:%s %s %s I:400" % (k2, k2, A(a, x), A(a, x)))                                       # the copy
+                if sp in (NAN, PINF): add("aliasing", "acl_sf S:dyn %s I:1" % A(a, x))
+    for x in nfpool:
+        for e in (0, 2, 400):
+            add("aliasing", "cl_sfm %s I:%d" % (x, e)); add("aliasing", "cl_sfe %s I:%d" % (x, e))
+            add("aliasing", "cl_sft %s %s I:%d" % (x, rng.choice(nfpool), e))
+        add("aliasing", "acl_sfm %s I:1" % x); add("aliasing", "acl_sft %s %s I:1" % (x, rng.choice(nfpool)))
+    for x in ("N", "I:8", "I:%d" % NAN):
+        if x != "N": add("aliasing", "cl_sfe %s I:2" % x); add("aliasing", "eq_sfe %s" % (x if x == "I:8" else "I:8"))
+        else: add("aliasing", "cl_sfm N I:2"); add("aliasing", "eq_sfm N"); add("aliasing", "aeq_sfm N")
     # ---- integer element types of different width / signedness: values that differ by a multiple of 2^8, 2^16, 2^32
     for ta in INT_TYPES:
         for tb in INT_TYPES:
